@@ -286,6 +286,73 @@ def replay_input(rp):
     return msg if sig else None
 
 
+NUMBERINGS = [(0, 2), (1, 3), (0, 3), (2, 3), (1, 2)]
+
+
+def run_numbering(job):
+    """AC numbers need not be 0..n-1 (a unit that was removed, a console that numbers from 1): two ACs with the given
+    numbers; each AC has a general and an AC-state subscriber; every AC-scoped frame kind changes ONE AC at a time, then
+    is repeated byte for byte.  The AC that changed notifies both its subscribers with its own id, the view follows
+    the console, the repeat notifies nobody."""
+    from .. import apiworld, console
+    gen, nums = job
+    inst = console.default_installation(gen, 2, (2, 1))
+    for a, n in zip(inst["acs"], nums):
+        a["ac"] = n
+    w = apiworld.ApiWorld(gen, inst, auto=True)
+    label = f"at{gen} ACs numbered {list(nums)}"
+    r = w.init_now(0.0)
+    if not (r and r[1] is True):
+        return (f"at{gen}:numbering:init", f"{label}: init() -> {r}")
+    w.loop.settle()
+    acs = {a.ac_id: a for a in w.at.air_conditioners}
+    if sorted(acs) != sorted(nums):
+        return (f"at{gen}:numbering:acs", f"{label}: client shows ACs {sorted(acs)}")
+    calls = []
+
+    def mk(tag):
+        async def sub(ident):
+            calls.append((tag, ident))
+        sub.__qualname__ = f"c12.num.{tag}"
+        return sub
+    for n in nums:
+        acs[n].subscribe(mk(f"G{n}"))
+        acs[n].subscribe_ac_state(mk(f"S{n}"))
+    c = w.console
+    k = 0
+    for rnd in range(2):
+        for n in nums:
+            for kind in ("status", "timer", "error"):
+                k += 1
+                if kind == "status":
+                    st = c.state["ac"][n]
+                    st["mode"] = "heat" if st["mode"] != "heat" else "cool"
+                    mkframe = lambda: c.ac_status_frame(only=[n])      # noqa: E731
+                elif kind == "timer":
+                    t = c.state["timer"][n]["off"]
+                    t.update({"disabled": False, "hour": (t["hour"] + 1) % 24, "minute": 15})
+                    mkframe = c.timer_status_frame
+                else:
+                    c.state["ac"][n]["error"] = 3
+                    c10.push(w, c.ac_status_frame(only=[n]))
+                    c.state["error"][n] = f"ER: {k:02d}"
+                    mkframe = lambda: c.error_frame(n)                 # noqa: E731
+                for rep in (False, True):
+                    calls.clear()
+                    c10.push(w, mkframe())
+                    what = f"{label}: {kind} frame #{k} for AC {n}" + (" repeated" if rep else "")
+                    d = pubmodel.diff(pubmodel.expected_view(gen, w.inst, c.state), pubmodel.observed_view(w.at))
+                    if d:
+                        return (f"at{gen}:numbering:view:{kind}", f"{what}: {d[0]}")
+                    got = sorted(calls)
+                    want = [] if rep else sorted([(f"G{n}", n), (f"S{n}", n)])
+                    if got != want:
+                        return (f"at{gen}:numbering:notify:{kind}" + (":repeat" if rep else ""), f"{what}: notifications {got}, expected {want}")
+    if w.loop_reports():
+        return (f"at{gen}:numbering:loop-report", f"{label}: {w.loop_reports()[:1]}")
+    return (None, k)
+
+
 def run(tier, seed, part=None):
     chk = runner.Check("C12", tier, seed, "model_checking")
     chk.trusted_base = ["pvmc.console.SimConsole / pvmc.ref", "pvmc.pubmodel (what is an exposed attribute)", "pvmc.vloop, pvmc.simnet",
@@ -311,6 +378,13 @@ def run(tier, seed, part=None):
                 outcomes.add(msg)
         chk.parts.append({"scenario": f"at{gen}", "depth": depth, "events": EVENTS, "sequences": len(jobs)})
         chk.samples.append({"gen": gen, "history": [EVENTS[i] for i in seqs[len(seqs) // 3]]})
+    jobs = [(gen, nums) for gen in (4, 5) for nums in NUMBERINGS]
+    for job, (sig, msg) in zip(jobs, explorer.pool().map(run_numbering, jobs)):
+        if sig:
+            chk.violation(sig, msg, {"kind": "input", "module": "pvmc.props.c12", "numbering": list(job)})
+        else:
+            n += msg
+    chk.parts.append({"scenario": "ac-numbering", "numberings": [list(x) for x in NUMBERINGS], "frames": "status / timer / error text, one AC at a time, each repeated"})
     chk.counters["states"] = len(outcomes)
     chk.counters["transitions"] = n
     chk.counters["executions"] = n
